@@ -9,20 +9,30 @@ import copy
 import itertools
 
 from ..core import Report, V, pmap, chunks, shuffled
-from .. import synth
+from .. import state, synth
 
 PROP = "C14"
 LEVEL = "model_checking"
 
 
+_META = None
+
+
 def _meta():
-    from nanite import preproc
-    ids = [p.identifier for p in preproc.PREPROCESSORS]
-    req = {p.identifier: list(p.steps_required or [])
-           for p in preproc.PREPROCESSORS}
-    opt = {p.identifier: list(p.steps_optional or [])
-           for p in preproc.PREPROCESSORS}
-    return ids, req, opt
+    """step metadata (the statement of the rules), copied once per process
+    before any library call of this check can have touched it"""
+    global _META
+    if _META is None:
+        from nanite import preproc
+        ids = [p.identifier for p in preproc.PREPROCESSORS]
+        req = {p.identifier: list(p.steps_required or [])
+               for p in preproc.PREPROCESSORS}
+        opt = {p.identifier: list(p.steps_optional or [])
+               for p in preproc.PREPROCESSORS}
+        _META = (ids, req, opt)
+    ids, req, opt = _META
+    return list(ids), {k: list(v) for k, v in req.items()}, \
+        {k: list(v) for k, v in opt.items()}
 
 
 def ref_has_required(sel, req):
@@ -168,6 +178,7 @@ def check_apply_case(sel):
 def _work(chunk):
     res = []
     for kind, sel in chunk:
+        state.restore("nanite.preproc")     # every case starts pristine
         if kind == "sort":
             res.append((kind, sel) + check_sort_case(sel))
         else:
@@ -194,6 +205,8 @@ def pair_work(args):
         seq = list(zip(perms[:-1], perms[1:])) \
             + list(zip(perms[::-1][:-1], perms[::-1][1:]))
     for l1, l2 in seq:
+        # the module state of a fresh interpreter, then exactly two calls
+        state.restore("nanite.preproc")
         try:
             preproc.autosort(list(l1))
         except BaseException:
@@ -204,13 +217,59 @@ def pair_work(args):
             v["case"] = {"kind": "pair", "first": l1, "sel": l2}
             v["site"] = "autosort-after-autosort"
         out += vs
-        if out:
+        if len(out) >= 20:
             break
+    return out, n
+
+
+def _judge(l2, req, opt):
+    """None if autosort(l2) satisfies the reference predicates"""
+    from nanite import preproc
+    try:
+        r = preproc.autosort(list(l2))
+        if sorted(r) != sorted(l2):
+            return ("sort-not-permutation", f"{l2} -> {r}")
+        if not ref_order_ok(r, req, opt):
+            return ("sort-invalid", f"{l2} -> {r}")
+        if ref_order_ok(l2, req, opt) and r != list(l2):
+            return ("sort-changes-valid", f"{l2} -> {r}")
+    except BaseException as e:
+        return ("sort-raises", repr(e))
+    return None
+
+
+def cross_work(args):
+    """history (in)dependence across step sets: from the module state of a
+    fresh interpreter, autosort(l1) is called and then l2 is judged."""
+    from nanite import preproc
+    firsts, seconds = args
+    ids, req, opt = _meta()
+    out = []
+    n = 0
+    for l1 in firsts:
+        for l2 in seconds:
+            state.restore("nanite.preproc")
+            try:
+                preproc.autosort(list(l1))
+            except BaseException:
+                pass
+            after = _judge(l2, req, opt)
+            n += 1
+            if after is not None:
+                case = {"kind": "pair", "first": list(l1), "sel": list(l2)}
+                out.append(V(PROP, after[0], site="autosort-after-autosort",
+                             witness=",".join(l2), detail=f"after "
+                             f"autosort({l1}): {after[1]}", case=case,
+                             kind="sort"))
+                if len(out) >= 20:
+                    return out, n
     return out, n
 
 
 def replay(doc):
     from nanite import preproc
+    _meta()        # snapshot the rules before any library call
+    state.snapshot()
     case = doc["case"]
     if case["kind"] == "pair":
         try:
@@ -227,6 +286,7 @@ def run(tier):
     from nanite import preproc
     rep = Report(PROP, tier, LEVEL)
     ids, req, opt = _meta()
+    state.snapshot()
     sels = [list(s) for k in range(len(ids) + 1)
             for s in itertools.permutations(ids, k)]
     rep.set("ordered_selections", len(sels))
@@ -266,6 +326,17 @@ def run(tier):
     for vs, n in pmap(pair_work, shuffled(pjobs)):
         rep.extend(vs)
         npairs += n
+    # ... and across step sets: every admissible list after every
+    # admissible list (quick: first lists with at most 4 steps)
+    adm = [s_ for s_ in sels if ref_has_required(s_, req)]
+    firsts = [s_ for s_ in adm if tier != "quick" or len(s_) <= 4]
+    cjobs = [(firsts[i:i + 6], adm) for i in range(0, len(firsts), 6)]
+    ncross = 0
+    for vs, n in pmap(cross_work, shuffled(cjobs)):
+        rep.extend(vs)
+        ncross += n
+    npairs += ncross
+    rep.set("autosort_cross_set_pairs", ncross)
     rep.add("transitions", npairs)
     rep.add("evaluations", npairs)
     rep.set("autosort_call_pairs", npairs)
